@@ -16,7 +16,7 @@ ASSUMPTIONS = ['orders, DIM, N, K, flags, map kinds concrete and enumerated; dec
                'each run covers one sign pattern of the time variables (all tau_i > 0 / all tau_i <= 0); the time map branch of segment i influences component i only (under the cut), so the two runs cover all patterns',
                'exact real arithmetic']
 FUNCTIONS = ['SplineOptimizer::evaluate (3-cost, 2-cost)', 'calculateIntegralCost', 'Spline::update', 'Spline::propagateGrad', 'Spline::getEnergy/getEnergyGrad', 'Spline::computeBasisFunctions',
-             'QuadInvTimeMap::toTime/backward', 'IdentityTimeMap', 'IdentitySpatialMap', 'user time map (T = k tau^2 + c) and user spatial maps (affine full / reduced dof, element-wise quadratic) through setTimeMap/setSpatialMap',
+             'QuadInvTimeMap::toTime/backward', 'IdentityTimeMap', 'IdentitySpatialMap', 'user time map (T = k tau^2 + c; also with a backward rule written in terms of its T argument) and user spatial maps (affine full / reduced dof at odd or at even waypoint indices, element-wise quadratic) through setTimeMap/setSpatialMap',
              'ensureLayoutCache/rebuildLayoutCache']
 OUTSIDE = ['N above the caps', 'K other than listed', 'DIM 4', 'functors that depend on the local time argument']
 HARD_TIMEOUT = {'quick': 1200, 'thorough': 3600}
@@ -71,7 +71,7 @@ def tasks(tier, seed):
         for N in (1, 2):
             T.append({'name': 'T-all tident o%d d1 N%d K2' % (o, N), 'order': o, 'dim': 1, 'N': N, 'K': 2, 'kind': 'tident', 'mode': 'all', 'flags': [0b11111111, 0b00100100], 'seed': seed, 'timeout': to})
     for (o, d) in c['gen']:
-        for gk in ('gen0', 'gen1', 'gen2'):
+        for gk in ('gen0', 'gen1', 'gen2', 'gen3', 'gen0T'):
             for N in (1, 2) if tier == 'quick' else (1, 2, 3):
                 T.append({'name': 'T-all %s o%d d%d N%d K1' % (gk, o, d, N), 'order': o, 'dim': d, 'N': N, 'K': 1, 'kind': gk, 'mode': 'all', 'flags': [0b11111111, 0b10010110], 'seed': seed, 'timeout': to})
     return T
